@@ -257,6 +257,20 @@ def contains(A, atoms):
     return None
 
 
+def accepts(A, text):
+    """does the DFA accept exactly this string?"""
+    q = A.start
+    for ch in text:
+        q = A.tr.get((q, atom_of(ch)))
+        if q is None:
+            return False
+    return q in A.acc
+
+
+# Python >= 3.11: int(str) refuses more than sys.int_max_str_digits (default 4300) digits with ValueError
+INT_MAX_STR_DIGITS = 4300
+
+
 def shortest(A):
     q = deque([(A.start, "")])
     seen = {A.start}
